@@ -17,6 +17,13 @@ class Hang(Exception):
         self.where, self.case, self.seconds = where, case, seconds
 
 
+def alarm_handler(signum, frame):
+    # re-armed: if the exception is raised where it gets cleared (C code calling back into Python), the next
+    # one, five seconds later, gets through; leaving the box disarms the timer
+    signal.setitimer(signal.ITIMER_REAL, 5.0)
+    raise TimeBox()
+
+
 @contextlib.contextmanager
 def time_box(seconds):
     # nested boxes: the outer one stays in charge
@@ -24,10 +31,7 @@ def time_box(seconds):
         yield False
         return
 
-    def handler(signum, frame):
-        raise TimeBox()
-
-    old = signal.signal(signal.SIGALRM, handler)
+    old = signal.signal(signal.SIGALRM, alarm_handler)
     signal.setitimer(signal.ITIMER_REAL, seconds)
     try:
         yield True
